@@ -1173,6 +1173,18 @@ def _already_decorated_with_invariants(func: CallableT) -> bool:
     return already_decorated
 
 
+def _make_cooperative_init(cls: ClassT) -> Callable[..., None]:
+    """Create a constructor for the class ``cls`` which only delegates to the next class in the resolution order."""
+
+    def __init__(self, *args, **kwargs):  # type: ignore
+        super(cls, self).__init__(*args, **kwargs)
+
+    __init__.__qualname__ = "{}.__init__".format(cls.__qualname__)
+    __init__.__module__ = cls.__module__
+
+    return __init__
+
+
 def add_invariant_checks(cls: ClassT) -> None:
     """Decorate each of the class functions with invariant checks if not already decorated."""
     # Candidates for the decoration as list of (name, dir() value)
@@ -1291,6 +1303,13 @@ def add_invariant_checks(cls: ClassT) -> None:
             if new_wrapper is not new_func:
                 setattr(cls, "__new__", new_wrapper)
         else:
+            if init_func == object.__init__:
+                # The class defines no constructor. We must not wrap ``object.__init__`` itself: the wrapper is put
+                # in the ``__dict__`` of the class and would thus cut off the constructors of the classes coming later
+                # in the method resolution order (*e.g.*, of a mix-in in ``class Derived(ThisClass, SomeMixin)``).
+                # Hence we wrap a constructor which delegates to the next class in the method resolution order.
+                init_func = _make_cooperative_init(cls)
+
             wrapper = _decorate_with_invariants(func=init_func, is_init=True)
             if wrapper is not init_func:
                 setattr(cls, init_func.__name__, wrapper)
